@@ -62,6 +62,29 @@ type Rec struct {
 	OnAccept func(msg *onet.ProtocolMsg)
 	accMu    sync.Mutex
 	Created  int
+	// retained: every aggregated batch ever received is kept as the protocol would keep it
+	// (the very slice it was handed) together with a snapshot of what it held on delivery
+	retained []retainedBatch
+}
+
+type retainedBatch struct {
+	ty   int
+	read func() []int // values in the kept slice now
+	was  []int        // values on delivery
+}
+
+// RetainedChanged reports the kept batches whose content is no longer what was delivered.
+func (r *Rec) RetainedChanged() []string {
+	r.mu.Lock()
+	defer r.mu.Unlock()
+	var out []string
+	for _, b := range r.retained {
+		now := b.read()
+		if fmt.Sprint(now) != fmt.Sprint(b.was) {
+			out = append(out, fmt.Sprintf("a batch of type %d delivered as %v reads %v now", b.ty, b.was, now))
+		}
+	}
+	return out
 }
 
 var (
@@ -179,9 +202,21 @@ func newProto(n *onet.TreeNodeInstance) (onet.ProtocolInstance, error) {
 			M1
 		}) error {
 			d := Delivery{Ty: 1}
+			var was []int
 			for _, m := range ms {
 				d.Items = append(d.Items, Item{m.TreeNode, m.V})
+				was = append(was, m.V)
 			}
+			kept := ms
+			r.mu.Lock()
+			r.retained = append(r.retained, retainedBatch{1, func() []int {
+				var now []int
+				for _, m := range kept {
+					now = append(now, m.V)
+				}
+				return now
+			}, was})
+			r.mu.Unlock()
 			wrap(d)
 			return nil
 		},
@@ -215,11 +250,21 @@ func (r *Rec) Drain() []Delivery {
 		select {
 		case ms := <-r.Ch2:
 			d := Delivery{Ty: 2, Chan: true}
+			var was []int
 			for _, m := range ms {
 				d.Items = append(d.Items, Item{m.TreeNode, m.V})
+				was = append(was, m.V)
 			}
+			kept := ms
 			r.mu.Lock()
 			r.Dels = append(r.Dels, d)
+			r.retained = append(r.retained, retainedBatch{2, func() []int {
+				var now []int
+				for _, m := range kept {
+					now = append(now, m.V)
+				}
+				return now
+			}, was})
 			r.mu.Unlock()
 			continue
 		case m := <-r.Ch4:
